@@ -1,13 +1,33 @@
 """Translator for C34: androguard/core/apk/__init__.py  ->  lean/AgVerif/Gen/ApkRegex.lean
 
 Reads (AST only, no import) `APK.get_dex_names` and `APK.is_multidex` and emits, for each of them,
-  * the regex literal passed to the single `re.compile(...)` call of the method,
-  * the name of the method called on the compiled pattern (match / search / fullmatch).
+  * the text of the ONE regular expression the method applies,
+  * the name of the matching method applied (match / search / fullmatch / …).
 The Lean side pins both (`AgVerif.C34.regex_pinned`): the predicates `dexMatch` / `multidexMatch` of
 lean/AgVerif/Model/ApkFiles.lean are the hand compilation of exactly these two patterns under
 `fullmatch`; any change of the pattern text or of the matching method in the code changes the
 generated file, breaks that theorem and forces the predicates to be derived again.
-Anything this translator does not recognise makes it raise (the check records a broken obligation).
+
+What is read SEMANTICALLY (behaviour-preserving rewrites give the same generated file):
+  * the compiled pattern may be a local `v = re.compile(P)`, a module-level constant
+    `_NAME = re.compile(P)` (bound exactly once at module level, never declared `global`, not shadowed
+    in the method) or the expression `re.compile(P)` itself; the module-function form `re.fullmatch(P, x)`
+    is read as `re.compile(P).fullmatch(x)`;
+  * `P` may be a string literal, a module-level constant bound once to such an expression, or a `+`
+    concatenation of those (constant folding); flags are refused;
+  * the application may be a call `v.fullmatch(x)` or the bound method `v.fullmatch` passed on (to `filter`);
+  * locals may be renamed; the regex use may sit in a PRIVATE helper of the same module (a method
+    `self._helper(…)` of the class or a module-level function `_helper(…)`) called from the method: the
+    helper is inlined one level (a helper that calls further private helpers is refused);
+  * `re` must be the module bound by the single top-level `import re`.
+What keeps raising (`Unrecognised`, recorded by the check as a broken obligation, never a verdict):
+  more or fewer than one regex use per method, flags, a pattern object that escapes (passed, returned,
+  `.pattern`), non-constant pattern text, `re.<other>`, and a method that uses NO regular expression at all —
+  e.g. a hand-written string predicate.  Such a predicate is an arbitrary Python function: agreeing with
+  the model on a finite set of class representatives up to a length bound proves nothing unless the
+  function is first shown to be a finite automaton over those character classes (it may branch on
+  `len(name) > 100` or on one particular code point), so the translator does not accept it on tests;
+  the correspondence and the oracle of harness/props/c34.py still run and judge the code.
 """
 import ast
 import os
@@ -20,49 +40,227 @@ class Unrecognised(Exception):
     pass
 
 
-def _method(tree, cls, name):
+class Module:
+    """the facts about the module that the local reasoning needs"""
+
+    def __init__(self, tree):
+        self.tree = tree
+        self.bind_count = {}       # module-level name -> number of bindings at module level
+        self.const_value = {}      # module-level name -> value node of its (plain) assignment
+        self.funcs = {}            # module-level function name -> FunctionDef
+        self.globals_declared = {n for node in ast.walk(tree) if isinstance(node, ast.Global) for n in node.names}
+        self.re_ok = False
+        self._scan(tree.body)
+        self.re_ok = self.bind_count.get("re") == 1 and self._re_import
+
+    _re_import = False
+
+    def _bind(self, name):
+        self.bind_count[name] = self.bind_count.get(name, 0) + 1
+
+    def _scan(self, body):
+        """every binding at module level (also inside if/try/for/with at module level, not inside def/class)"""
+        for st in body:
+            if isinstance(st, (ast.FunctionDef, ast.AsyncFunctionDef)):
+                self._bind(st.name)
+                self.funcs.setdefault(st.name, st)
+                continue
+            if isinstance(st, ast.ClassDef):
+                self._bind(st.name)
+                continue
+            if isinstance(st, (ast.Import, ast.ImportFrom)):
+                for a in st.names:
+                    nm = (a.asname or a.name).split(".")[0]
+                    self._bind(nm)
+                    if isinstance(st, ast.Import) and a.name == "re" and a.asname is None:
+                        self._re_import = True
+                continue
+            if isinstance(st, ast.Assign) and len(st.targets) == 1 and isinstance(st.targets[0], ast.Name):
+                self._bind(st.targets[0].id)
+                self.const_value[st.targets[0].id] = st.value
+                continue
+            if isinstance(st, ast.AnnAssign) and isinstance(st.target, ast.Name) and st.value is not None:
+                self._bind(st.target.id)
+                self.const_value[st.target.id] = st.value
+                continue
+            # anything else: count every name it stores or deletes (walk, but not into def/class bodies)
+            stack = [st]
+            while stack:
+                n = stack.pop()
+                if isinstance(n, (ast.FunctionDef, ast.AsyncFunctionDef, ast.ClassDef)):
+                    self._bind(n.name)
+                    continue
+                if isinstance(n, ast.Name) and isinstance(n.ctx, (ast.Store, ast.Del)):
+                    self._bind(n.id)
+                    self.const_value.pop(n.id, None)
+                if isinstance(n, (ast.Import, ast.ImportFrom)):
+                    for a in n.names:
+                        self._bind((a.asname or a.name).split(".")[0])
+                stack.extend(ast.iter_child_nodes(n))
+
+    def constant(self, name):
+        """value node of a module-level name that is bound exactly once, by a plain assignment, and never `global`"""
+        if self.bind_count.get(name) == 1 and name in self.const_value and name not in self.globals_declared:
+            return self.const_value[name]
+        return None
+
+
+def _class(tree, cls):
     for n in tree.body:
         if isinstance(n, ast.ClassDef) and n.name == cls:
-            found = [m for m in n.body if isinstance(m, (ast.FunctionDef, ast.AsyncFunctionDef)) and m.name == name]
-            if len(found) != 1:
-                raise Unrecognised(f"{cls}.{name}: {len(found)} definitions")
-            return found[0]
+            return n
     raise Unrecognised(f"class {cls} not found")
 
 
-def extract(fn):
-    """(pattern text, method name) of the one compiled regex a method uses"""
-    where = f"{fn.name} (line {fn.lineno})"
-    compiled = []          # (variable name, pattern)
-    for node in ast.walk(fn):
-        if isinstance(node, ast.Assign) and isinstance(node.value, ast.Call):
-            f = node.value.func
-            if (isinstance(f, ast.Attribute) and f.attr == "compile" and isinstance(f.value, ast.Name)
-                    and f.value.id == "re"):
-                call = node.value
-                if len(call.args) != 1 or call.keywords:
-                    raise Unrecognised(f"{where}: re.compile with flags or unusual arguments")
-                a = call.args[0]
-                if not (isinstance(a, ast.Constant) and isinstance(a.value, str)):
-                    raise Unrecognised(f"{where}: re.compile argument is not a string literal")
-                if len(node.targets) != 1 or not isinstance(node.targets[0], ast.Name):
-                    raise Unrecognised(f"{where}: re.compile result is not bound to a plain name")
-                compiled.append((node.targets[0].id, a.value))
-    # any other use of the re module inside the method (re.match(...), re.search(...)) is not understood
-    for node in ast.walk(fn):
-        if (isinstance(node, ast.Attribute) and isinstance(node.value, ast.Name) and node.value.id == "re"
-                and node.attr != "compile"):
-            raise Unrecognised(f"{where}: direct use of re.{node.attr}")
-    if len(compiled) != 1:
-        raise Unrecognised(f"{where}: expected exactly one re.compile, found {len(compiled)}")
-    var, pattern = compiled[0]
+def _method(tree, cls, name):
+    found = [m for m in _class(tree, cls).body
+             if isinstance(m, (ast.FunctionDef, ast.AsyncFunctionDef)) and m.name == name]
+    if len(found) != 1:
+        raise Unrecognised(f"{cls}.{name}: {len(found)} definitions")
+    return found[0]
+
+
+def _local_stores(fn):
+    """names bound inside the function (parameters, assignments, loop/with/comprehension targets, imports, defs)"""
+    out = {}
+    for a in fn.args.posonlyargs + fn.args.args + fn.args.kwonlyargs:
+        out[a.arg] = out.get(a.arg, 0) + 1
+    for a in (fn.args.vararg, fn.args.kwarg):
+        if a is not None:
+            out[a.arg] = out.get(a.arg, 0) + 1
+    for n in ast.walk(fn):
+        if isinstance(n, ast.Name) and isinstance(n.ctx, (ast.Store, ast.Del)):
+            out[n.id] = out.get(n.id, 0) + 1
+        elif isinstance(n, (ast.FunctionDef, ast.AsyncFunctionDef, ast.ClassDef)) and n is not fn:
+            out[n.name] = out.get(n.name, 0) + 1
+        elif isinstance(n, (ast.Import, ast.ImportFrom)):
+            for a in n.names:
+                nm = (a.asname or a.name).split(".")[0]
+                out[nm] = out.get(nm, 0) + 1
+    return out
+
+
+def _is_re(node, locs, mod):
+    return isinstance(node, ast.Name) and node.id == "re" and "re" not in locs and mod.re_ok
+
+
+def eval_str(node, locs, mod, where, depth=0):
+    """constant folding of the pattern text"""
+    if depth > 8:
+        raise Unrecognised(f"{where}: pattern text is defined through too many names")
+    if isinstance(node, ast.Constant) and isinstance(node.value, str):
+        return node.value
+    if isinstance(node, ast.BinOp) and isinstance(node.op, ast.Add):
+        return eval_str(node.left, locs, mod, where, depth + 1) + eval_str(node.right, locs, mod, where, depth + 1)
+    if isinstance(node, ast.Name) and node.id not in locs:
+        v = mod.constant(node.id)
+        if v is not None:
+            return eval_str(v, {}, mod, where, depth + 1)
+    raise Unrecognised(f"{where}: pattern text is not a constant string expression")
+
+
+def _compile_pattern(call, locs, mod, where):
+    """P when `call` is re.compile(P) without flags, else None"""
+    if not (isinstance(call, ast.Call) and isinstance(call.func, ast.Attribute) and call.func.attr == "compile"
+            and _is_re(call.func.value, locs, mod)):
+        return None
+    if len(call.args) != 1 or call.keywords:
+        raise Unrecognised(f"{where}: re.compile with flags or unusual arguments")
+    return eval_str(call.args[0], locs, mod, where)
+
+
+def _uses(fn, mod, cls, where, level):
+    """every regular-expression use inside fn (private helpers inlined one level): [(pattern text, method)]"""
+    locs = _local_stores(fn)
     uses = []
-    for node in ast.walk(fn):
-        if isinstance(node, ast.Attribute) and isinstance(node.value, ast.Name) and node.value.id == var:
-            uses.append(node.attr)
-    if len(uses) != 1 or uses[0] not in PATTERN_METHODS:
-        raise Unrecognised(f"{where}: expected exactly one method call on {var}, found {uses}")
-    return pattern, uses[0]
+    parent = {}
+    for n in ast.walk(fn):
+        for c in ast.iter_child_nodes(n):
+            parent[c] = n
+    # local names bound to a compiled pattern: exactly one binding in the function, `v = re.compile(P)`
+    local_pat = {}
+    for n in ast.walk(fn):
+        if isinstance(n, ast.Assign) and isinstance(n.value, ast.Call):
+            p = _compile_pattern(n.value, locs, mod, where)
+            if p is not None:
+                if len(n.targets) != 1 or not isinstance(n.targets[0], ast.Name) or locs.get(n.targets[0].id) != 1:
+                    raise Unrecognised(f"{where}: re.compile result is not bound once to a plain local name")
+                local_pat[n.targets[0].id] = p
+
+    def pattern_of(v):
+        """the pattern text when expression v denotes a compiled pattern, else None"""
+        if isinstance(v, ast.Name):
+            if v.id in local_pat:
+                return local_pat[v.id]
+            if v.id not in locs:
+                c = mod.constant(v.id)
+                if c is not None:
+                    return _compile_pattern(c, {}, mod, f"module constant {v.id}")
+            return None
+        return _compile_pattern(v, locs, mod, where)
+
+    consumed = set()
+    for n in ast.walk(fn):
+        if isinstance(n, ast.Attribute):
+            if _is_re(n.value, locs, mod):
+                if n.attr == "compile":
+                    continue
+                if n.attr not in PATTERN_METHODS:
+                    raise Unrecognised(f"{where}: use of re.{n.attr}")
+                call = parent.get(n)
+                if not (isinstance(call, ast.Call) and call.func is n):
+                    raise Unrecognised(f"{where}: re.{n.attr} is not called directly")
+                if len(call.args) != 2 or call.keywords:
+                    raise Unrecognised(f"{where}: re.{n.attr} with flags or unusual arguments")
+                uses.append((eval_str(call.args[0], locs, mod, where), n.attr))
+                continue
+            p = pattern_of(n.value)
+            if p is not None:
+                if n.attr not in PATTERN_METHODS:
+                    raise Unrecognised(f"{where}: attribute .{n.attr} of a compiled pattern")
+                uses.append((p, n.attr))
+                consumed.add(n.value)
+    # a compiled pattern must not escape: every mention of a pattern name / re.compile(...) is one of the uses above
+    for n in ast.walk(fn):
+        if n in consumed:
+            continue
+        if isinstance(n, ast.Name) and isinstance(n.ctx, ast.Load) and pattern_of(n) is not None:
+            raise Unrecognised(f"{where}: the compiled pattern {n.id} is used other than by calling a matching method")
+        if isinstance(n, ast.Call) and _compile_pattern(n, locs, mod, where) is not None:
+            par = parent.get(n)
+            if not (isinstance(par, ast.Assign) and par.value is n):
+                raise Unrecognised(f"{where}: re.compile(...) result is used other than by calling a matching method")
+    # private helpers of the same module, one level
+    for n in ast.walk(fn):
+        if not isinstance(n, ast.Call):
+            continue
+        helper = None
+        f = n.func
+        if (isinstance(f, ast.Attribute) and isinstance(f.value, ast.Name) and f.value.id in ("self", "cls")
+                and f.attr.startswith("_") and not f.attr.startswith("__")):
+            found = [m for m in cls.body if isinstance(m, ast.FunctionDef) and m.name == f.attr]
+            if len(found) == 1:
+                helper = found[0]
+        elif (isinstance(f, ast.Name) and f.id.startswith("_") and f.id not in locs and mod.bind_count.get(f.id) == 1
+              and f.id in mod.funcs and f.id not in mod.globals_declared):
+            helper = mod.funcs[f.id]
+        if helper is None or helper is fn:
+            continue
+        if level >= 1:
+            raise Unrecognised(f"{where}: helper calls a further private helper {helper.name} (only one level is inlined)")
+        uses += _uses(helper, mod, cls, f"{where} -> {helper.name} (line {helper.lineno})", level + 1)
+    return uses
+
+
+def extract(fn, mod=None, cls=None):
+    """(pattern text, matching method) of the one regular expression a method applies"""
+    where = f"{fn.name} (line {fn.lineno})"
+    uses = _uses(fn, mod, cls, where, 0)
+    if len(uses) != 1:
+        raise Unrecognised(f"{where}: expected exactly one regular-expression use, found {len(uses)}"
+                           + (" — a method without a regular expression (e.g. a hand-written string predicate) is not "
+                              "accepted on tests: see the module docstring" if not uses else f": {uses}"))
+    return uses[0]
 
 
 def lean_str(s: str) -> str:
@@ -89,8 +287,12 @@ def lean_str(s: str) -> str:
 def generate(repo):
     path = os.path.join(repo, SRC)
     tree = ast.parse(open(path, encoding="utf-8").read())
-    dex_re, dex_m = extract(_method(tree, "APK", "get_dex_names"))
-    multi_re, multi_m = extract(_method(tree, "APK", "is_multidex"))
+    mod = Module(tree)
+    if not mod.re_ok:
+        raise Unrecognised("`re` is not bound exactly once, by a top-level `import re`")
+    cls = _class(tree, "APK")
+    dex_re, dex_m = extract(_method(tree, "APK", "get_dex_names"), mod, cls)
+    multi_re, multi_m = extract(_method(tree, "APK", "is_multidex"), mod, cls)
     text = f"""/- GENERATED by gen/apkregex.py from {SRC} — do not edit.
    The regex literals of APK.get_dex_names / APK.is_multidex and the method called on the compiled pattern. -/
 namespace AgVerif.Gen
